@@ -30,15 +30,16 @@ def run(ctx):
     ctx.assumptions += ['tie-break = arrival order (Scorer.Compare of the harness)', 'capacity >= 1',
                         'TLC bounds: <= 6 items exhaustive, <= 10 simulated, MaxOps <= 40']
     if q:
-        ctx.tlc_mc('SkipQueue_MC', 'SkipQueue_MCq.cfg', workers=2, timeout=1800)
+        _mc(ctx, 'SkipQueue_MC', 'SkipQueue_MCq.cfg', workers=2, timeout=1800)
     else:
-        ctx.tlc_mc('SkipQueue_MC', 'SkipQueue_MCq.cfg', workers=2, timeout=1800, coverage=True)
-        ctx.tlc_mc('SkipQueue_MC', 'SkipQueue_MC.cfg', workers=4, timeout=7200)
+        _mc(ctx, 'SkipQueue_MC', 'SkipQueue_MCq.cfg', workers=2, timeout=1800, coverage=True)
+        _mc(ctx, 'SkipQueue_MC', 'SkipQueue_MC.cfg', workers=4, timeout=7200)
     b = vlib.build(DRIVER)
     allb = ctx.tlc_genall('SkipQueue_All', 'SkipQueue_Allq.cfg' if q else 'SkipQueue_All.cfg', timeout=7200)
     # par=1: the skip list uses the global math/rand source; single-threaded replays reproduce the same levels
     for rs in range(4 if q else 8):
         ctx.replay(b, allb, opts=dict(rseed=rs), par=1, count=(rs == 0), timeout=7200)
+    _replay_selftest(ctx, b, allb, dict(rseed=0))
     ctx.exhaustive = False  # exhaustive over the abstract call sequences of the small config; rand seeds are sampled
     ctx.extra['exhaustive_small_config'] = dict(cfg='SkipQueue_Allq.cfg' if q else 'SkipQueue_All.cfg', behaviours=len(allb),
                                                 rand_seeds=4 if q else 8)
@@ -49,6 +50,44 @@ def run(ctx):
             ctx.replay(b, bs, opts=dict(rseed=10 * sd + rs), par=1, count=(rs == 0), timeout=7200)
     ctx.validate_recording(b, 'SkipQueue_Trace', 'SkipQueue_Trace.cfg',
                            opts=dict(n=15 if q else 120, ids=12, k=2, maxcap=6, depth=60), selftest=True, timeout=7200)
+
+
+def _replay_selftest(ctx, b, bs, opts, par=1):
+    """Anti-vacuity: one behaviour with one predicted reply flipped must be rejected by the replayer."""
+    import copy
+    import os
+    bad = None
+    for cand in bs[:50]:
+        for i, st in enumerate(cand['steps']):
+            if i > 0 and st.get('ret') == 'ok' and st.get('op') not in ('Save', 'Load', 'JLoad', 'New'):
+                bad = copy.deepcopy(cand)
+                bad['id'] = 'selftest'
+                bad['steps'][i]['ret'] = 'flipped'
+                break
+        if bad:
+            break
+    if not bad:
+        ctx.notes.append('replay selftest: no corruptible behaviour')
+        return
+    n = len(ctx.mismatches)
+    ctx.replay(b, [bad], opts=opts, par=par, count=False, name='selftest-%d.ndjson' % n)
+    got = ctx.mismatches[n:]
+    del ctx.mismatches[n:]
+    for m in got:
+        try:
+            os.remove(m.get('replay') or '')
+        except OSError:
+            pass
+    if not got:
+        raise vlib.Broken('binding self-test failed: a behaviour with a flipped reply was accepted by the replayer')
+    ctx.extra['selftest_flipped_reply_rejected'] = True
+
+
+def _mc(ctx, module, cfg, **kw):
+    r = ctx.tlc_mc(module, cfg, **kw)
+    if kw.get('coverage') and r.get('zero_actions'):
+        raise vlib.Broken('vacuous model: actions never taken in %s/%s: %s' % (module, cfg, r['zero_actions'][:5]))
+    return r
 
 
 import vlib  # noqa: E402
